@@ -25,10 +25,13 @@ ALIASES = {
 BUILTINS = ('len', 'range', 'abs', 'isinstance', 'enumerate', 'list', 'set', 'int', 'float', 'iter', 'str',
             'print', 'tuple', 'min', 'max', 'sum', 'zip', 'object', 'type', 'hasattr', 'getattr', 'id', 'any', 'all', 'frozenset', 'bool', 'sorted', 'setattr', 'reversed', 'vars',
             'ValueError', 'TypeError', 'KeyError', 'NotImplementedError', 'AssertionError', 'ImportError',
-            'DeprecationWarning', 'Exception', 'dict', 'slice', 'repr', 'complex', 'bytes')
+            'DeprecationWarning', 'Exception', 'dict', 'slice', 'repr', 'complex', 'bytes', 'UserWarning', 'RuntimeWarning', 'FutureWarning', 'round',
+            'Warning', 'IndexError', 'AttributeError', 'RuntimeError', 'ZeroDivisionError', 'ArithmeticError', 'LookupError', 'OverflowError')
 
 
 def builtin(name):
+    if name == '__debug__':
+        return TRUE                 # assertions are enabled (the interpreter models `assert` as executed)
     if name in BUILTINS:
         return Lib('builtins.' + name)
     return None
@@ -41,6 +44,8 @@ def attr(ip, lib, name, node):
     if full in ('numpy.inf', 'math.inf', 'numpy.Inf', 'numpy.infty'):
         ip.sym_kind.setdefault('INF', 'scalar')
         return Num(N.sym('INF'), 'scalar')      # +infinity: exp(-INF) is rewritten to 0 by nf.drop_inf
+    if full == 'numpy.newaxis':
+        return NONE                                # np.newaxis is None
     if full == 'string.ascii_uppercase':
         return Const('ABCDEFGHIJKLMNOPQRSTUVWXYZ')
     return Lib(full)
@@ -158,8 +163,15 @@ def np_where(ip, args, kwargs, node):
 def np_minmax(which):
     """np.minimum / np.maximum / np.fmin / np.fmax: elementwise, as a piecewise term on the ordering of the operands"""
     def g(ip, args, kwargs, node):
-        if len(args) != 2 or kwargs:
-            raise Unsupported('np.%s with %d args / keywords' % (which, len(args)), node)
+        out, extra = _out_arg(args, kwargs, 2)
+        args = list(args[:2])
+        if len(args) != 2 or extra:
+            raise Unsupported('np.%s with %d args / keywords %s' % (which, len(args), extra), node)
+        if out is not None:
+            r = g(ip, args, {}, node)
+            if isinstance(r, Masked):
+                raise Unsupported('np.%s(..., out=) on masked operands' % which, node)
+            return _write_out(ip, out, ip.term_of(r, node)[0], node)
         cond = None
         if isinstance(args[0], Masked) or isinstance(args[1], Masked):
             # operands restricted by one boolean mask: the result is restricted the same way
@@ -417,6 +429,10 @@ def np_asarray(ip, args, kwargs, node):
         return cast_value(ip, x, spec, node, copy=False)
     if isinstance(x, (Arr, View)):
         return x          # alias
+    if isinstance(x, Num) and x.kind == 'scalar':
+        r = Num(x.t, 'scalar')      # np.asarray(number): a 0-d array -- it behaves like the number in arithmetic, ndim 0
+        r.zero_d = True
+        return r
     return np_copy(ip, args, kwargs, node)
 
 
@@ -609,8 +625,33 @@ def np_einsum(ip, args, kwargs, node):
     spec = args[0]
     if not (isinstance(spec, Const) and isinstance(spec.v, str)):
         raise Unsupported('einsum with non-literal spec', node)
-    ops = [ip.term_of(a, node)[0] for a in args[1:]]
     canon = _canon_einsum(spec.v)
+    if len(args) == 3 and canon in ('abc,acd->abd', 'abc,adb->adc') and any(ip.has_cells(a) for a in args[1:]) and not kwargs:
+        # stacks of matrices with concretely stored pair functions and a known, small rank: the product entry by entry
+        x, y = (args[1], args[2]) if canon == 'abc,acd->abd' else (args[2], args[1])
+        dx, dy = _dims_of(x), _dims_of(y)
+        nx = dx[1] if dx is not None and len(dx) == 3 else None
+        if nx is None or not nx.is_const() or dy is None or len(dy) != 3 or not dy[1].equals(nx):
+            raise Unsupported('matrix product of arrays stored entry by entry whose rank is not known', node)
+        n_ = int(nx.const_value())
+        bx, by = x, y
+        while isinstance(bx, View):
+            bx = bx.base
+        while isinstance(by, View):
+            by = by.base
+        ip.notes.append(('einsum', {'spec': spec.v, 'canon': canon, 'loc': ip.loc(node)}))
+        r = ip.fresh_array(N.NF.const(0))
+        r.cells = {}
+        r.dims = dx
+        for i in range(n_):
+            for k_ in range(n_):
+                acc = N.NF.const(0)
+                for j in range(n_):
+                    acc = P.lift2(lambda p_, q_: p_ + q_, acc, P.lift2(lambda p_, q_: p_ * q_, ip.read_cell(bx, i, j, node),
+                                                                     ip.read_cell(by, j, k_, node)))
+                r.cells[(i, k_)] = acc
+        return r
+    ops = [ip.term_of(a, node)[0] for a in args[1:]]
     ip.notes.append(('einsum', {'spec': spec.v, 'canon': canon, 'loc': ip.loc(node)}))
     if any(P.is_pw(o) for o in ops):
         raise Unsupported('piecewise einsum operand', node)
@@ -636,6 +677,17 @@ def np_einsum(ip, args, kwargs, node):
 
 
 def np_inv(ip, args, kwargs, node):
+    if ip.has_cells(args[0]):
+        b = args[0]
+        while isinstance(b, View):
+            b = b.base
+        d = _dims_of(b)
+        if d is None or len(d) != 3 or not d[1].is_const() or int(d[1].const_value()) != 1:
+            raise Unsupported('inverse of an array stored entry by entry (only 1x1 matrices are inverted entry-wise)', node)
+        r = ip.fresh_array(N.NF.const(0))
+        r.cells = {(0, 0): P.lift1(lambda y: N.NF.const(1) / y, ip.read_cell(b, 0, 0, node))}
+        r.dims = d
+        return r
     t, _ = ip.term_of(args[0], node)
     if P.is_pw(t):
         raise Unsupported('piecewise inverse', node)
@@ -943,7 +995,11 @@ def ndim_of(ip, t):
         (m, c), = t.num.items()
         if len(m) == 1 and m[0][1] == 1 and m[0][0][0] == 'sym':
             k = ip.sym_kind.get(m[0][0][1])
-            return {'tensor': 3, 'mat1': 3, 'curve': 1, 'col': 3}.get(k)
+            return {'tensor': 3, 'mat1': 3, 'curve': 1, 'col': 3, 'row': 1}.get(k)
+        # x.reshape((-1,1,1)) of a curve (Domain.long_r) and its scalar multiples / powers: three axes
+        arrs = [a for a, e in m if a[0] != 'sym' or ip.sym_kind.get(a[1], 'scalar') != 'scalar']
+        if len(arrs) == 1 and arrs[0][0] == 'fn' and arrs[0][1] == 'col3':
+            return 3
     # an elementwise combination of stacks of matrices (and scalars) is a stack of matrices: numpy broadcasting keeps the
     # three axes.  Only decided when every array-valued ingredient is a plain tensor / mat1 symbol.
     kinds = set()
@@ -1045,6 +1101,40 @@ def np_size(ip, args, kwargs, node):
             return Num(length_of(ip, t), 'scalar')
         raise Unsupported('np.size of a multi-dimensional array', node)
     raise Unsupported('np.size of %r' % (x,), node)
+
+
+def b_str(ip, args, kwargs, node):
+    """str(x): a string stays itself (a file name, a label); anything else becomes some text"""
+    if not args:
+        return Const('')
+    x = args[0]
+    if isinstance(x, Const) and isinstance(x.v, str):
+        return x
+    if isinstance(x, Const) and isinstance(x.v, tuple) and len(x.v) == 2 and x.v[0] == 'path':
+        return Const(x.v[1])
+    return Const('<str>')
+
+
+def os_path_identity(ip, args, kwargs, node):
+    """os.path.expanduser / os.fspath / os.path.normpath of a name without '~': the same file"""
+    x = args[0]
+    if isinstance(x, Const) and isinstance(x.v, str) and not x.v.startswith('~'):
+        return x
+    raise Unsupported('path manipulation of %r' % (x,), node)
+
+
+def np_round(ip, args, kwargs, node):
+    """np.round / np.around / round: the value rounded to `decimals` places -- an uninterpreted function of the value (it is
+    the identity only on numbers that already have that few decimals)"""
+    if not args:
+        raise Raised('TypeError', 'round() missing argument', ip.loc(node))
+    t, k = ip.term_of(args[0], node)
+    d = args[1] if len(args) > 1 else kwargs.get('decimals', kwargs.get('ndigits'))
+    dt = ip.term_of(d, node)[0] if d is not None and not (isinstance(d, Const) and d.v is None) else N.NF.const(0)
+    if P.is_pw(dt):
+        raise Unsupported('piecewise number of decimals', node)
+    r = P.lift1(lambda y: N.fn('round', y, dt), t)
+    return ip.make_result(r, k)
 
 
 def b_slice(ip, args, kwargs, node):
@@ -1209,6 +1299,10 @@ def b_frozenset(ip, args, kwargs, node):
     raise Unsupported('frozenset of %r' % (x,), node)
 
 
+_NDARRAY_ATTRS = {'size', 'shape', 'ndim', 'dtype', 'item', 'tolist', 'astype', 'copy', 'reshape', 'T', 'sum', 'min', 'max', '__len__',
+                  '__iter__', '__getitem__', '__array__', 'flatten', 'ravel', 'fill'}
+
+
 def b_hasattr(ip, args, kwargs, node):
     o, nm = args
     if not (isinstance(nm, Const) and isinstance(nm.v, str)):
@@ -1217,6 +1311,22 @@ def b_hasattr(ip, args, kwargs, node):
         if nm.v in o.attrs or ip.find_method(o, nm.v) is not None:
             return TRUE
         return FALSE
+    if isinstance(o, (Arr, View)) or (isinstance(o, Num) and o.kind == 'array'):
+        if nm.v in _NDARRAY_ATTRS:
+            return TRUE
+        if nm.v.startswith('__'):
+            raise Unsupported('hasattr(<array>, %r)' % nm.v, node)
+        return FALSE
+    if isinstance(o, Num) and o.kind == 'scalar':
+        # a Python number has none of the container / ndarray attributes (numpy scalars have the ndarray ones, but
+        # neither __len__ nor __iter__)
+        if nm.v in ('__len__', '__iter__', '__getitem__'):
+            return FALSE
+        raise Unsupported('hasattr(<number>, %r): a Python float has not, a numpy scalar has' % nm.v, node)
+    if isinstance(o, Seq):
+        if o.kind in ('generator', 'iterator'):
+            return TRUE if nm.v in ('__iter__', '__next__') else FALSE
+        return TRUE if nm.v in ('__len__', '__iter__', '__getitem__', '__contains__') else FALSE
     raise Unsupported('hasattr on %r' % (o,), node)
 
 
@@ -1368,6 +1478,8 @@ SEQ_PY = {'list': ('list', 'Sequence'), 'tuple': ('tuple', 'Sequence'), 'range':
 def python_types_of(ip, v):
     """names of the Python types / ABCs the abstract value is an instance of (None: not known)"""
     if isinstance(v, Const):
+        if isinstance(v.v, bool) and getattr(v, 'npbool', False):
+            return {'np.bool_', 'Hashable'}       # numpy.bool_ (the result of a numpy comparison): truthy, not a Python bool
         if isinstance(v.v, bool):
             return {'bool', 'int', 'Hashable'}
         if isinstance(v.v, str):
@@ -1412,6 +1524,8 @@ def python_types_of(ip, v):
     return None
 
 
+_NUMPY_SCALAR_TYPES = {'numpy.integer', 'numpy.floating', 'numpy.number', 'numpy.generic', 'numpy.bool_', 'numpy.int64', 'numpy.int32',
+                       'numpy.float64', 'numpy.float32', 'numpy.signedinteger', 'numpy.unsignedinteger', 'numpy.inexact'}
 _LIB_TYPES = {'builtins.str': 'str', 'builtins.list': 'list', 'builtins.tuple': 'tuple', 'builtins.int': 'int', 'builtins.float': 'float',
               'builtins.bool': 'bool', 'builtins.set': 'set', 'builtins.frozenset': 'frozenset', 'builtins.dict': 'dict',
               'builtins.range': 'range', 'numpy.ndarray': 'ndarray', 'numbers.Number': 'Number', 'numbers.Real': 'Real'}
@@ -1436,6 +1550,13 @@ def b_isinstance(ip, args, kwargs, node):
                 return TRUE       # a member of that enumeration
         elif isinstance(c1, Lib):
             want = _LIB_TYPES.get(c1.name)
+            if want is None and c1.name in _NUMPY_SCALAR_TYPES:
+                # numpy scalar classes: Python literals and constants are never instances; a number or a label the caller
+                # supplies may be one (np.int64(3) as a site type) -- not known
+                if isinstance(v, Const) or (isinstance(v, Num) and is_const_num(v)) or isinstance(v, (Obj, Seq, Arr, View, Masked, Mask)):
+                    continue
+                pending = 'whether %r is a numpy scalar (%s)' % (v, c1.name)
+                continue
             if want is None:
                 raise Unsupported('isinstance against %s' % c1.name, node)
             if isinstance(v, Obj) and v.cls != 'dict':
@@ -1559,6 +1680,12 @@ def b_list(ip, args, kwargs, node):
 
 def b_int(ip, args, kwargs, node):
     x = args[0]
+    if isinstance(x, Const) and isinstance(x.v, (int, float)) and not isinstance(x.v, bool):
+        r = const_num(int(x.v))
+        r.inty = True
+        return r
+    if isinstance(x, Const) and isinstance(x.v, bool):
+        return const_num(int(x.v))
     if is_const_num(x):
         return const_num(int(num_value(x)))
     if isinstance(x, Num) and x.kind == 'scalar':
@@ -1572,6 +1699,9 @@ def b_float(ip, args, kwargs, node):
     x = args[0]
     if isinstance(x, Num) and x.kind == 'scalar':
         return x
+    if isinstance(x, (Arr, View)) or (isinstance(x, Num) and x.kind == 'array'):
+        # float(<ndarray with one axis or more>): numpy (2.x, as installed) refuses -- only 0-d arrays convert
+        raise Raised('TypeError', 'only 0-dimensional arrays can be converted to Python scalars', ip.loc(node))
     raise Unsupported('float(%r)' % (x,), node)
 
 
@@ -1659,7 +1789,7 @@ CALLS = {
     'itertools.product': it_product, 'itertools.combinations': it_combinations(False),
     'itertools.combinations_with_replacement': it_combinations(True),
     'warnings.warn': w_warn,
-    'builtins.len': b_len, 'builtins.range': b_range, 'builtins.abs': b_abs, 'builtins.sum': b_sum, 'builtins.setattr': b_setattr, 'builtins.vars': b_vars, 'builtins.slice': b_slice, 'builtins.repr': b_repr, 'builtins.type': b_type, 'numpy.isclose': np_isclose,
+    'builtins.len': b_len, 'builtins.range': b_range, 'builtins.abs': b_abs, 'builtins.sum': b_sum, 'builtins.setattr': b_setattr, 'builtins.vars': b_vars, 'builtins.slice': b_slice, 'numpy.round': np_round, 'numpy.around': np_round, 'numpy.round_': np_round, 'builtins.round': np_round, 'builtins.str': b_str, 'os.path.expanduser': os_path_identity, 'os.fspath': os_path_identity, 'os.path.expandvars': os_path_identity, 'builtins.repr': b_repr, 'builtins.type': b_type, 'numpy.isclose': np_isclose,
     'numpy.testing.assert_allclose': np_assert_allclose, 'numpy.ascontiguousarray': np_asarray, 'numpy.asfortranarray': np_copy, 'builtins.zip': b_zip, 'builtins.reversed': b_reversed, 'builtins.sorted': b_sorted, 'numpy.size': np_size, 'numpy.ndim': np_ndim, 'numpy.reciprocal': np_reciprocal, 'numpy.finfo': np_finfo, 'numpy.identity': np_identity, 'numpy.eye': np_identity,
     'operator.lt': op_fn('cmp', 'Lt'), 'operator.le': op_fn('cmp', 'LtE'), 'operator.gt': op_fn('cmp', 'Gt'), 'operator.ge': op_fn('cmp', 'GtE'),
     'operator.eq': op_fn('cmp', 'Eq'), 'operator.ne': op_fn('cmp', 'NotEq'), 'operator.add': op_fn('bin', 'Add'), 'operator.sub': op_fn('bin', 'Sub'),
@@ -1670,7 +1800,8 @@ CALLS = {
     'builtins.int': b_int, 'builtins.float': b_float, 'builtins.print': b_noop,
 }
 for _e in ('ValueError', 'TypeError', 'KeyError', 'NotImplementedError', 'AssertionError', 'Exception',
-           'DeprecationWarning'):
+           'DeprecationWarning', 'UserWarning', 'RuntimeWarning', 'FutureWarning', 'Warning', 'IndexError', 'AttributeError',
+           'RuntimeError', 'ZeroDivisionError', 'ArithmeticError', 'LookupError', 'OverflowError'):
     CALLS['builtins.' + _e] = b_exc(_e)
 
 
@@ -1707,7 +1838,23 @@ def num_attr(ip, o, name, node):
         return Native('num.' + name, hook, o)
     if name == 'shape':
         return Obj('shape', {'arr': o})
+    if name == 'size':
+        if isinstance(o, Num) and o.kind == 'scalar':
+            return const_num(1)
+        return np_size(ip, [o], {}, node)
+    if name == 'item':
+        def item(ip2, s_, a, k, n):
+            if a or k:
+                raise Unsupported('ndarray.item with an index', n)
+            if isinstance(s_, Num) and s_.kind == 'scalar':
+                return Num(s_.t, 'scalar')
+            t_, _ = ip2.term_of(s_, n)
+            # the single element of a one-element array (ValueError for any other size): a plain Python number
+            return Num(P.lift1(lambda y: N.fn('item', y), t_), 'scalar')
+        return Native('ndarray.item', item, o)
     if name == 'ndim':
+        if isinstance(o, Num) and o.kind == 'scalar':
+            return const_num(0)            # a number (or the 0-d array np.asarray makes of it) has no axes
         return shape_len(ip, Obj('shape', {'arr': o}), node)
     if name == 'reshape':
         return Native('ndarray.reshape', nd_reshape, o)
@@ -1799,6 +1946,8 @@ def shape_getitem(ip, o, args, kwargs, node):
         t = next(P.leaves(t))
     nd = ndim_of(ip, t)
     kinds = {ip.sym_kind.get(a[1]) for a in t.all_atoms() if a[0] == 'sym'} - {'scalar', None}
+    if kinds == {'row'} and i in (0, -1):
+        return Num(ip.declare('n_types', integer=True), 'scalar')       # one value per column of each matrix
     if kinds <= {'tensor', 'mat1'} and kinds:
         if i in (1, 2):
             return Num(ip.declare('n_types', integer=True), 'scalar')
